@@ -111,6 +111,16 @@ pub trait Check: 'static {
     fn extra_evidence(_tier: Tier) -> Value {
         Value::Null
     }
+    /// Supervision (see `supervise`): a case running longer than this many seconds is treated as
+    /// a hang suspect (reported as inconclusive, skipped, search continues). `None` disables
+    /// stall detection (checks whose cases legitimately run for minutes).
+    fn stall_secs(_tier: Tier) -> Option<u64> {
+        Some(180)
+    }
+    /// Trigger class of a case that kills the process (used in `process-killed/<trigger>`).
+    fn crash_trigger(_case: &Self::Case) -> String {
+        "case".into()
+    }
     /// Optional extra stage (e.g. a fuzz campaign, child-process scenarios); returns
     /// (evaluations, failures, info)
     fn extra_stage(_tier: Tier, _seed: u64, _known: &Known) -> ExtraResult {
@@ -215,11 +225,97 @@ pub fn panic_site(msg: &str) -> String {
     site.rsplit_once(':').map(|(f, _)| f).unwrap_or(site).to_string()
 }
 
+// ---------------------------------------------------------------- in-flight recording (child side)
+//
+// When the run is supervised (env VCHECK_INFLIGHT_DIR), every thread writes the case it is about
+// to evaluate into its own slot file, so that the supervisor can attribute a process death
+// (stack overflow, abort) or a hang to a case. Cases listed in <dir>/skip.json (hashes) are
+// skipped: they were attributed in a previous round.
+
+struct Inflight {
+    dir: PathBuf,
+    skip: std::collections::HashSet<u64>,
+}
+fn inflight() -> Option<&'static Inflight> {
+    static CELL: std::sync::OnceLock<Option<Inflight>> = std::sync::OnceLock::new();
+    CELL.get_or_init(|| {
+        let dir = PathBuf::from(std::env::var_os("VCHECK_INFLIGHT_DIR")?);
+        let skip: std::collections::HashSet<u64> = std::fs::read_to_string(dir.join("skip.json"))
+            .ok()
+            .and_then(|t| serde_json::from_str::<Vec<u64>>(&t).ok())
+            .unwrap_or_default()
+            .into_iter()
+            .collect();
+        Some(Inflight { dir, skip })
+    })
+    .as_ref()
+}
+thread_local! {
+    static SLOT: RefCell<Option<std::fs::File>> = const { RefCell::new(None) };
+}
+fn slot_write(bytes: &[u8]) {
+    use std::os::unix::fs::FileExt;
+    static NEXT: std::sync::atomic::AtomicUsize = std::sync::atomic::AtomicUsize::new(0);
+    let Some(inf) = inflight() else { return };
+    SLOT.with(|s| {
+        let mut s = s.borrow_mut();
+        if s.is_none() {
+            let n = NEXT.fetch_add(1, std::sync::atomic::Ordering::Relaxed);
+            *s = std::fs::OpenOptions::new()
+                .create(true)
+                .write(true)
+                .truncate(true)
+                .open(inf.dir.join(format!("slot-{n}.json")))
+                .ok();
+        }
+        if let Some(f) = s.as_mut() {
+            let _ = f.write_all_at(bytes, 0);
+            let _ = f.set_len(bytes.len() as u64);
+        }
+    });
+}
+/// record an unknown failure as soon as it is seen (supervised runs): if the run later hangs or
+/// dies on another case, the supervisor can still report this one
+fn inflight_found<C: Check>(case: &C::Case, fails: &[Failure]) {
+    static NEXT: std::sync::atomic::AtomicUsize = std::sync::atomic::AtomicUsize::new(0);
+    let Some(inf) = inflight() else { return };
+    let n = NEXT.fetch_add(1, std::sync::atomic::Ordering::Relaxed);
+    if n >= 64 {
+        return;
+    }
+    let rf = ReplayFile {
+        property: C::ID.into(),
+        signature: fails.first().map(|f| f.signature.clone()).unwrap_or_default(),
+        detail: fails.iter().map(|f| format!("[{}] {}", f.signature, f.detail)).collect::<Vec<_>>().join("\n"),
+        case: serde_json::to_value(case).unwrap_or(Value::Null),
+    };
+    let _ = std::fs::write(inf.dir.join(format!("found-{n}.json")), serde_json::to_string(&rf).unwrap_or_default());
+}
+
+/// mark the current thread as not evaluating any case
+pub fn inflight_idle() {
+    if inflight().is_some() {
+        slot_write(b"");
+    }
+}
+
 fn run_case<C: Check>(case: &C::Case, strict: bool) -> Ctx {
     let mut ctx = Ctx {
         strict,
         ..Ctx::default()
     };
+    if let Some(inf) = inflight() {
+        let json = serde_json::to_string(case).unwrap_or_default();
+        if !inf.skip.is_empty() {
+            let mut h = std::collections::hash_map::DefaultHasher::new();
+            json.hash(&mut h);
+            if inf.skip.contains(&h.finish()) {
+                ctx.class("skipped:crash-or-hang-suspect-of-a-previous-round");
+                return ctx;
+            }
+        }
+        slot_write(format!("{{\"case\":{json}}}").as_bytes());
+    }
     let r = catch(|| C::run(case, &mut ctx));
     if let Err(msg) = r {
         ctx.fail(
@@ -332,10 +428,12 @@ fn run_shard<C: Check>(tier: Tier, seed: u64, shard: u32, cases: u32, known: &Kn
         if unknown.is_empty() {
             Ok(())
         } else {
+            inflight_found::<C>(&case, &unknown);
             st.failed = true;
             Err(TestCaseError::fail(unknown[0].signature.clone()))
         }
     });
+    inflight_idle();
     let state = state.into_inner();
     match res {
         Ok(()) => ShardOutcome {
@@ -397,7 +495,300 @@ pub struct Opts {
 }
 
 /// Entry point for one property. Returns the process exit code.
+///
+/// Unless this process is itself a supervised child (env VCHECK_CHILD) or a replay, the run
+/// happens in a child process watched by `supervise`, so that a case that kills the process
+/// (stack overflow, abort, allocation failure) becomes a VIOLATION with a replay file instead of
+/// a dead harness, and a case that never terminates is reported as inconclusive.
 pub fn drive<C: Check>(opts: &Opts) -> i32 {
+    if opts.replay.is_none() && std::env::var_os("VCHECK_CHILD").is_none() && std::env::var_os("VCHECK_NO_SUPERVISOR").is_none() {
+        return supervise::<C>(opts);
+    }
+    drive_inner::<C>(opts)
+}
+
+enum Verdict {
+    Innocent,
+    Crash(String),
+    Hang,
+}
+
+/// address-space limit of supervised children (runaway allocation must abort, not take the machine down)
+const CHILD_AS_LIMIT: u64 = 40 << 30;
+
+fn limited(cmd: &mut std::process::Command) -> &mut std::process::Command {
+    use std::os::unix::process::CommandExt;
+    unsafe {
+        cmd.pre_exec(|| {
+            let lim = libc::rlimit {
+                rlim_cur: CHILD_AS_LIMIT,
+                rlim_max: CHILD_AS_LIMIT,
+            };
+            libc::setrlimit(libc::RLIMIT_AS, &lim);
+            Ok(())
+        })
+    }
+}
+
+fn wait_timeout(child: &mut std::process::Child, secs: u64) -> Option<std::process::ExitStatus> {
+    let t0 = Instant::now();
+    loop {
+        match child.try_wait() {
+            Ok(Some(st)) => return Some(st),
+            Ok(None) => {}
+            Err(_) => return None,
+        }
+        if t0.elapsed().as_secs() >= secs {
+            let _ = child.kill();
+            let _ = child.wait();
+            return None;
+        }
+        std::thread::sleep(std::time::Duration::from_millis(50));
+    }
+}
+
+fn supervise<C: Check>(opts: &Opts) -> i32 {
+    use std::process::{Command, Stdio};
+    let root = verif_root();
+    let known = Known::load(&root, C::ID);
+    let exe = match std::env::current_exe() {
+        Ok(e) => e,
+        Err(_) => return drive_inner::<C>(opts),
+    };
+    let dir = root.join("replays").join(format!(".inflight-{}-{}", C::ID, std::process::id()));
+    let _ = std::fs::remove_dir_all(&dir);
+    if std::fs::create_dir_all(&dir).is_err() {
+        return drive_inner::<C>(opts);
+    }
+    let mut args: Vec<String> = vec![C::ID.into(), "--tier".into(), opts.tier.name().into(), "--seed".into(), opts.seed.to_string()];
+    if let Some(n) = opts.cases_override {
+        args.push("--cases".into());
+        args.push(n.to_string());
+    }
+    let stall = C::stall_secs(opts.tier);
+    let mut skip: Vec<u64> = vec![];
+    let mut crash_violations = 0usize;
+    let mut notes: Vec<String> = vec![];
+    let mut known_lines: BTreeMap<String, String> = BTreeMap::new();
+    let mut final_code: Option<i32> = None;
+    let mut serial = 0usize;
+    for _round in 0..4 {
+        // fresh slots
+        if let Ok(rd) = std::fs::read_dir(&dir) {
+            for e in rd.filter_map(|e| e.ok()) {
+                let n = e.file_name().to_string_lossy().to_string();
+                if n.starts_with("slot-") || n.starts_with("found-") || n.starts_with("probe-") {
+                    let _ = std::fs::remove_file(e.path());
+                }
+            }
+        }
+        let _ = std::fs::write(dir.join("skip.json"), serde_json::to_string(&skip).unwrap_or_default());
+        let out_path = dir.join("stdout.txt");
+        let out_file = match std::fs::File::create(&out_path) {
+            Ok(f) => f,
+            Err(_) => return drive_inner::<C>(opts),
+        };
+        let mut child = match limited(
+            Command::new(&exe)
+                .args(&args)
+                .env("VCHECK_CHILD", "1")
+                .env("VCHECK_INFLIGHT_DIR", &dir)
+                .stdout(Stdio::from(out_file)),
+        )
+        .spawn()
+        {
+            Ok(c) => c,
+            Err(_) => return drive_inner::<C>(opts),
+        };
+        // monitor
+        let mut stalled = false;
+        let status = loop {
+            match child.try_wait() {
+                Ok(Some(st)) => break Some(st),
+                Ok(None) => {}
+                Err(_) => break None,
+            }
+            if let Some(limit) = stall {
+                let now = std::time::SystemTime::now();
+                let mut oldest = 0u64;
+                if let Ok(rd) = std::fs::read_dir(&dir) {
+                    for e in rd.filter_map(|e| e.ok()) {
+                        if !e.file_name().to_string_lossy().starts_with("slot-") {
+                            continue;
+                        }
+                        if let Ok(md) = e.metadata() {
+                            if md.len() == 0 {
+                                continue;
+                            }
+                            if let Ok(age) = now.duration_since(md.modified().unwrap_or(now)) {
+                                oldest = oldest.max(age.as_secs());
+                            }
+                        }
+                    }
+                }
+                if oldest > limit {
+                    stalled = true;
+                    let _ = child.kill();
+                    let _ = child.wait();
+                    break None;
+                }
+            }
+            std::thread::sleep(std::time::Duration::from_millis(200));
+        };
+        let out_txt = std::fs::read_to_string(&out_path).unwrap_or_default();
+        let code = status.and_then(|s| s.code());
+        if let (false, Some(c @ (0 | 1 | 2))) = (stalled, code) {
+            print!("{out_txt}");
+            final_code = Some(c);
+            break;
+        }
+        // the child was killed (by a signal, or by us after a stall): attribute it
+        println!(
+            "{}: the run {} ; examining the in-flight cases in fresh processes",
+            C::ID,
+            if stalled {
+                format!("made no progress on a case for more than {} s", stall.unwrap_or(0))
+            } else {
+                format!("was killed ({status:?})")
+            }
+        );
+        // failures already seen by the killed run (not shrunk): report them now
+        let mut found_files: Vec<PathBuf> = std::fs::read_dir(&dir)
+            .map(|rd| rd.filter_map(|e| e.ok()).map(|e| e.path()).collect())
+            .unwrap_or_default();
+        found_files.retain(|p| p.file_name().map(|n| n.to_string_lossy().starts_with("found-")).unwrap_or(false));
+        found_files.sort();
+        let mut seen_sigs = BTreeSet::new();
+        for f in &found_files {
+            let Ok(txt) = std::fs::read_to_string(f) else { continue };
+            let Ok(rf) = serde_json::from_str::<ReplayFile>(&txt) else { continue };
+            if !seen_sigs.insert(rf.signature.clone()) {
+                continue;
+            }
+            let path = root.join("replays").join(format!("{}-{}-early{}.json", C::ID, opts.seed, serial));
+            serial += 1;
+            let _ = std::fs::write(&path, serde_json::to_string_pretty(&rf).unwrap_or_default());
+            println!("VIOLATION property={} replay={}", C::ID, path.display());
+            println!("  signature: {}", rf.signature);
+            for l in rf.detail.lines().take(20) {
+                println!("  | {l}");
+            }
+            crash_violations += 1;
+        }
+        let mut slots: Vec<PathBuf> = std::fs::read_dir(&dir)
+            .map(|rd| rd.filter_map(|e| e.ok()).map(|e| e.path()).collect())
+            .unwrap_or_default();
+        slots.retain(|p| p.file_name().map(|n| n.to_string_lossy().starts_with("slot-")).unwrap_or(false));
+        slots.sort();
+        let mut attributed = 0;
+        let probe_secs = stall.unwrap_or(120).clamp(20, 45);
+        // probe all in-flight cases in parallel, each in a fresh process
+        let mut probes: Vec<(C::Case, String, Option<std::process::Child>)> = vec![];
+        for (i, f) in slots.iter().enumerate() {
+            let txt = std::fs::read_to_string(f).unwrap_or_default();
+            if txt.trim().is_empty() {
+                continue;
+            }
+            let Ok(v) = serde_json::from_str::<Value>(&txt) else { continue };
+            let Ok(case) = serde_json::from_value::<C::Case>(v["case"].clone()) else { continue };
+            let tmp = dir.join(format!("probe-{i}.json"));
+            let _ = std::fs::write(&tmp, &txt);
+            let ch = limited(
+                Command::new(&exe)
+                    .args([C::ID, "--replay"])
+                    .arg(&tmp)
+                    .env("VCHECK_CHILD", "1")
+                    .env_remove("VCHECK_INFLIGHT_DIR")
+                    .stdout(Stdio::null())
+                    .stderr(Stdio::null()),
+            )
+            .spawn()
+            .ok();
+            probes.push((case, txt, ch));
+        }
+        let t_probe = Instant::now();
+        for (case, txt, ch) in probes {
+            let verdict = match ch {
+                None => Verdict::Innocent,
+                Some(mut ch) => {
+                    let left = probe_secs.saturating_sub(t_probe.elapsed().as_secs()).max(1);
+                    match wait_timeout(&mut ch, left) {
+                        None => Verdict::Hang,
+                        Some(st) => match st.code() {
+                            Some(0 | 1 | 2) => Verdict::Innocent,
+                            _ => Verdict::Crash(format!("{st:?}")),
+                        },
+                    }
+                }
+            };
+            let h = hash_case(&case);
+            match verdict {
+                Verdict::Innocent => {}
+                Verdict::Crash(st) => {
+                    attributed += 1;
+                    skip.push(h);
+                    let sig = format!("process-killed/{}", C::crash_trigger(&case));
+                    if let Some(k) = known.list.iter().find(|k| k.signature == sig) {
+                        known_lines.insert(sig, k.what.clone());
+                        continue;
+                    }
+                    let path = root.join("replays").join(format!("{}-{}-crash{}.json", C::ID, opts.seed, serial));
+                    serial += 1;
+                    let rf = ReplayFile {
+                        property: C::ID.into(),
+                        signature: sig.clone(),
+                        detail: format!("evaluating this case kills the process ({st}) instead of returning a value or an error"),
+                        case: serde_json::to_value(&case).unwrap_or(Value::Null),
+                    };
+                    let _ = std::fs::write(&path, serde_json::to_string_pretty(&rf).unwrap_or_default());
+                    println!("VIOLATION property={} replay={}", C::ID, path.display());
+                    println!("  signature: {sig}");
+                    println!("  | {}", rf.detail);
+                    crash_violations += 1;
+                }
+                Verdict::Hang => {
+                    attributed += 1;
+                    skip.push(h);
+                    let path = root.join("replays").join(format!("{}-{}-hang{}.json", C::ID, opts.seed, serial));
+                    serial += 1;
+                    let _ = std::fs::write(&path, &txt);
+                    notes.push(format!(
+                        "a case did not terminate within {probe_secs} s (hang suspect, skipped; not counted as a violation): {}",
+                        path.display()
+                    ));
+                }
+            }
+        }
+        if !found_files.is_empty() {
+            // a genuine failure is already reported: no need for further rounds
+            final_code = Some(1);
+            break;
+        }
+        // fresh found-/probe- files for the next round are removed with the slots below
+        if attributed == 0 {
+            notes.push("the run was killed but no in-flight case reproduces it".into());
+            final_code = Some(2);
+            break;
+        }
+    }
+    let _ = std::fs::remove_dir_all(&dir);
+    for (sig, what) in &known_lines {
+        println!("KNOWN-FINDING: property={} [{}] {}", C::ID, sig, what);
+    }
+    for n in &notes {
+        println!("INCONCLUSIVE: {n}");
+    }
+    let code = final_code.unwrap_or(2);
+    if crash_violations > 0 || code == 1 {
+        1
+    } else if !notes.is_empty() || code == 2 {
+        2
+    } else {
+        0
+    }
+}
+
+fn drive_inner<C: Check>(opts: &Opts) -> i32 {
     install_quiet_panic_hook();
     let root = verif_root();
     let known = Known::load(&root, C::ID);
@@ -445,9 +836,12 @@ pub fn drive<C: Check>(opts: &Opts) -> i32 {
             }
         }
         if !unknown.is_empty() {
+            inflight_found::<C>(&case, &unknown);
             violations.push((serde_json::to_value(&case).unwrap(), unknown));
         }
     }
+
+    inflight_idle();
 
     // 2. fixed / enumerated cases
     let fixed = C::fixed_cases(tier, opts.seed);
@@ -476,9 +870,11 @@ pub fn drive<C: Check>(opts: &Opts) -> i32 {
                                 let ctx = run_case::<C>(&c, false);
                                 let unknown = st.absorb::<C>(&c, &ctx, known);
                                 if !unknown.is_empty() && fails.len() < 3 {
+                                    inflight_found::<C>(&c, &unknown);
                                     fails.push((c, unknown));
                                 }
                             }
+                            inflight_idle();
                             (st, fails)
                         })
                         .unwrap()
@@ -641,6 +1037,7 @@ pub fn drive<C: Check>(opts: &Opts) -> i32 {
             "extra_stage": extra_info,
             "check_specific": C::extra_evidence(tier),
             "inconclusive": inconclusive,
+            "suspect_cases_skipped_in_this_round": inflight().map(|i| i.skip.len()).unwrap_or(0),
         },
         "assumptions": C::assumptions(),
         "wall_s": wall,
